@@ -106,6 +106,17 @@ func NewWorld(seed uint64, perType, nmac int) (*World, error) {
 	return w, nil
 }
 
+// AddMac registers a secret (deduplicated) and returns its number.
+func (w *World) AddMac(key []byte) uint64 {
+	for i, m := range w.Macs {
+		if bytes.Equal(m, key) {
+			return uint64(i)
+		}
+	}
+	w.Macs = append(w.Macs, append([]byte{}, key...))
+	return uint64(len(w.Macs) - 1)
+}
+
 // Intern returns the atom number of a string (the empty string has no atom).
 func (w *World) Intern(s string) uint64 {
 	if id, ok := w.atoms[s]; ok {
